@@ -58,6 +58,17 @@ class History(object):
         return self.res.labels.any(id_)
 
 
+def had_late_route_reset(res):
+    """True when a task execution that had already left WAITING was put
+    back to WAITING by Task.defer (open finding F3)."""
+    for e in res.recorder.events:
+        if e.table == TASK and e.committed and \
+                e.vals.get('state') == 'WAITING' and \
+                e.old.get('state') not in (None, 'WAITING'):
+            return True
+    return False
+
+
 def is_rerun_actor(label):
     return label.startswith('rpc:rerun_workflow') or \
         label.startswith('op:rerun') or label.startswith('op:skip')
